@@ -382,24 +382,41 @@ def run(c):
     # ---- Coq
     body = HDR + "Definition py_abi : list (list (list N)) := %s.\n" % coq_list([coq_list([coq_list(["%d%%N" % v for v in ck]) for ck in row]) for row in abi_code()])
     body += "Definition T := Eval vm_compute in (if list_eq_dec (list_eq_dec (list_eq_dec N.eq_dec)) py_abi abi_code then 1 else 0)%N.\nPrint T.\n"
-    body += "Definition cl : list (nat * option N * list N) := %s.\nDefinition MC := Eval vm_compute in failing classes_ok cl.\nPrint MC.\n" % coq_list(class_items)
-    parts = []
+    # long list literals overflow Coq's stack: chunks of 1500, indices re-based by the driver
+    CH = 1500
+    for k in range(0, len(class_items), CH):
+        body += "Definition cl%d : list (nat * option N * list N) := %s.\nDefinition MC%d := Eval vm_compute in failing classes_ok cl%d.\nPrint MC%d.\n" % (
+            k, coq_list(class_items[k:k + CH]), k, k, k)
     base_idx = []
     off = 0
     for i, (ents, chks) in enumerate(forests_coq):
-        body += "Definition f%d : list (list nat * node) * list chk := (%s, %s).\nDefinition M%d := Eval vm_compute in forest_failing f%d.\nPrint M%d.\n" % (
-            i, ents, coq_list(chks), i, i, i)
         base_idx.append(off)
         off += len(chks)
-    out = c.coq_eval("paths", body, timeout=1500)
+    out = c.coq_eval("tables", body, timeout=1500)
+    # the forests, ten per file, in parallel
+    import concurrent.futures
+
+    def shard(k):
+        b = HDR
+        for i in range(k, min(k + 10, len(forests_coq))):
+            ents, chks = forests_coq[i]
+            b += "Definition f%d : list (list nat * node) * list chk := (%s, %s).\nDefinition M%d := Eval vm_compute in forest_failing f%d.\nPrint M%d.\n" % (
+                i, ents, coq_list(chks), i, i, i)
+        return c.coq_eval("forests%d" % k, b, timeout=1500)
+    with concurrent.futures.ThreadPoolExecutor(max_workers=8) as ex:
+        outs = list(ex.map(shard, range(0, len(forests_coq), 10)))
+    fout = "\n".join(outs)
     if c.parse_nums(c.parse_printed(out, "T").replace("%N", "")) != [1]:
         dis.append({"relation": "the driver's ABI table equals abi_table"})
-    for i in c.parse_nums(c.parse_printed(out, "MC").replace("%N", "")):
+    bad_classes = []
+    for k in range(0, len(class_items), CH):
+        bad_classes += [k + i for i in c.parse_nums(c.parse_printed(out, "MC%d" % k).replace("%N", ""))]
+    for i in bad_classes:
         fid, op = class_src[i]
         dis.append({"relation": "classes_ok (classes asked = class_of (handle_table ..))", "syscall": op["name"], "registers": op["args"],
                     "asked": obs[fid]["calls"].get(op["id"])})
     for fi in range(len(forests_coq)):
-        for i in c.parse_nums(c.parse_printed(out, "M%d" % fi).replace("%N", "")):
+        for i in c.parse_nums(c.parse_printed(fout, "M%d" % fi).replace("%N", "")):
             fid, op, ci = forest_src[base_idx[fi] + i]
             dis.append({"relation": "chk_ok (presented = code's answer; kernel_resolution = kernel's answer, following and not following)",
                         "forest": metas[fid][0], "syscall": op["name"], "registers": op["args"], "check": op["checks"][ci],
